@@ -109,14 +109,11 @@ def h2Events : List String → H2Conn → List FrameIn → List String → List 
 def creditLine (args : List String) : String :=
   match args with
   | f0 :: lens =>
-    let rec go (f : Int) (ls : List String) (tot : Nat) : Int × Nat :=
-      match ls with
-      | [] => (f, tot)
-      | l :: rest =>
-        let r := fudgeUpdate f ((l.toNat?).getD 0)
-        go r.1 rest (tot + (if r.2 then 16384 else 0))
-    let r := go ((f0.toInt?).getD 0) lens 0
-    s!"{r.2} {r.1}"
+    match f0.toInt?, lens.mapM String.toNat? with
+    | some f, some ls =>
+      let r := creditRun f ls          -- the definition c06_upload_credit_returned is about
+      s!"{r.2} {r.1}"
+    | _, _ => "bad-op"
   | _ => "bad-op"
 
 def parseKind (k : String) : HdrKind :=
